@@ -9,15 +9,18 @@ Record row := mkrow { r_user : str; r_dsn : str; r_table : str;
                       p_admin : bool; p_read : bool; p_write : bool; p_update : bool; p_delete : bool }.
 Inductive perm := PRead | PWrite | PUpdate | PDelete | PAdmin.
 
-Record state := mkst { rows : list row; dsns : list (str * bool) }.   (* dsn name -> restricted *)
-Definition empty : state := mkst [] [].
+(* dsns: dsn name -> restricted; tables: the tables that physically exist in the database behind a DSN name *)
+Record state := mkst { rows : list row; dsns : list (str * bool); tables : list (str * str) }.
+Definition empty : state := mkst [] [] [].
 
 Inductive op :=
 | OSetDSN (d : str) (restricted : bool)            (* DSNService.WriteDSN *)
 | ODelDSN (d : str)                                (* DSNService.DeleteDSN + DeletePermissionsByDSN *)
 | OGrant (u d t : str) (ch : list (bool * perm))   (* GrantPermissions, "+perm" / "-perm" in sorted order *)
 | OCreate (u d t : str)                            (* createTablePermissions: the creator gets everything *)
-| ODelete (fu fd ft : option str).                 (* DeletePermissions with the filters that are present *)
+| ODelete (fu fd ft : option str)                  (* DeletePermissions with the filters that are present *)
+| OTCreate (u d t : str)                           (* TableCreate handler: CREATE TABLE, then createTablePermissions *)
+| OTDrop (d t : str).                              (* DeleteTable handler: DROP TABLE, then removeTablePermissions *)
 
 Definition key_eqb (r : row) (u d t : str) : bool :=
   str_eqb (r_user r) u && str_eqb (r_dsn r) d && str_eqb (r_table r) t.
@@ -46,21 +49,38 @@ Fixpoint set_dsn (l : list (str * bool)) (d : str) (v : bool) : list (str * bool
 Fixpoint lookup (l : list (str * bool)) (d : str) : option bool :=
   match l with [] => None | (k, x) :: r => if str_eqb k d then Some x else lookup r d end.
 
+Definition has_table (l : list (str * str)) (d t : str) : bool :=
+  existsb (fun dt => str_eqb (fst dt) d && str_eqb (snd dt) t) l.
+
 Definition step (st : state) (o : op) : state :=
   match o with
-  | OSetDSN d v => mkst (rows st) (set_dsn (dsns st) d v)
+  | OSetDSN d v => mkst (rows st) (set_dsn (dsns st) d v) (tables st)
   | ODelDSN d => mkst (filter (fun r => negb (str_eqb (r_dsn r) d)) (rows st))
-                      (filter (fun kv => negb (str_eqb (fst kv) d)) (dsns st))
+                      (filter (fun kv => negb (str_eqb (fst kv) d)) (dsns st)) (tables st)
   | OGrant u d t ch =>
       match matching (rows st) u d t with
-      | [] => mkst (rows st ++ [apply_changes (blank u d t) ch]) (dsns st)
-      | [_] => mkst (List.map (fun r => if key_eqb r u d t then apply_changes r ch else r) (rows st)) (dsns st)
+      | [] => mkst (rows st ++ [apply_changes (blank u d t) ch]) (dsns st) (tables st)
+      | [_] => mkst (List.map (fun r => if key_eqb r u d t then apply_changes r ch else r) (rows st)) (dsns st) (tables st)
       | _ => st                                     (* ambiguous entry: error, nothing changes *)
       end
-  | OCreate u d t => mkst (rows st ++ [full u d t]) (dsns st)
+  | OCreate u d t => mkst (rows st ++ [full u d t]) (dsns st) (tables st)
   | ODelete fu fd ft =>
       mkst (filter (fun r => negb (opt_match fu (r_user r) && opt_match fd (r_dsn r) && opt_match ft (r_table r))) (rows st))
-           (dsns st)
+           (dsns st) (tables st)
+  | OTCreate u d t =>
+      match lookup (dsns st) d with
+      | None => st                                  (* GetDatabase fails *)
+      | Some _ => if has_table (tables st) d t then st      (* CREATE TABLE fails *)
+                  else mkst (rows st ++ [full u d t]) (dsns st) ((d, t) :: tables st)
+      end
+  | OTDrop d t =>
+      match lookup (dsns st) d with
+      | None => st
+      | Some _ => if has_table (tables st) d t
+                  then mkst (filter (fun r => negb (str_eqb (r_dsn r) d && str_eqb (r_table r) t)) (rows st)) (dsns st)
+                            (filter (fun dt => negb (str_eqb (fst dt) d && str_eqb (snd dt) t)) (tables st))
+                  else st                           (* DROP TABLE fails, the grants stay *)
+      end
   end.
 Definition run (ops : list op) : state := fold_left step ops empty.
 
